@@ -295,8 +295,10 @@ class Discharger:
             self.arity_ok = self.table_ok          # decision tables of the application (evaltables.py) decided every row
         else:
             try:
-                self.arity_ok = c08.arity_rule(sub, fb, ap, asp, bpa)
-            except mir.AnchorMissing:
+                # (the tables could not follow the application code: a shape rule can still *establish* the check where the
+                # code keeps the pinned shape; where it does not recognise the code, nothing is known)
+                self.arity_ok = True if c08.arity_rule(sub, fb, ap, asp, bpa) else None
+            except Exception:
                 self.arity_ok = None               # neither the tables nor the shape rule could establish it: arity arguments are undecided
         # chokepoint: builtin bodies only invoked from BuiltinProcedureBody::apply <- apply_procedure
         callers_ = fb.callers("lib")
@@ -416,7 +418,7 @@ class Discharger:
     # -------------------------------------------------------------- dispatcher
     def discharge(self, f, b, t, kind, what):
         for rule in (self.d_arity, self.d_arity_user, self.d_dominating_test, self.d_checked_key, self.d_nonempty, self.d_container_variant, self.d_variant_runs,
-                     self.d_table, self.d_counter, self.d_total_cast, self.d_const_index, self.d_front_insert, self.d_front_remove, self.d_bounds, self.d_cell_momentary, self.d_borrow, self.d_known_arith,
+                     self.d_table, self.d_counter, self.d_total_cast, self.d_const_index, self.d_front_insert, self.d_front_remove, self.d_bounds, self.d_map_key_present, self.d_cell_momentary, self.d_borrow, self.d_known_arith,
                      self.d_const_input, self.d_div_guarded, self.d_zero_checked, self.d_variant_runs_callers):
             r = rule(f, b, t, kind, what)
             if r is not None:
@@ -646,8 +648,26 @@ class Discharger:
         regs = self.reg_by_target.get(owner)
         if not regs:
             return None
-        src = self._unwrap_src(f, t)
-        if not src or not callee_matches(src[1], "Iterator::next", "Iterator>::next"):
+        def reads(tt_):
+            """the blocks of the `next()` calls whose results this unwrap takes apart: `next().unwrap()`, or
+            `next().zip(next()).unwrap()` (Some exactly when both are); None when it unwraps something else"""
+            s_ = self._unwrap_src(f, tt_)
+            if not s_:
+                return None
+            if callee_matches(s_[1], "Iterator::next", "Iterator>::next"):
+                return [s_[0]]
+            if callee_matches(s_[1], "Option::zip", "Option::<T>::zip") and len(s_[1]["args"]) == 2:
+                out_ = []
+                for a_ in s_[1]["args"]:
+                    l_ = mir.op_local(a_)
+                    ds_ = mir.defs_of(f).get(l_, []) if l_ is not None else []
+                    if len(ds_) == 1 and ds_[0][0] == "call" and callee_matches(ds_[0][2], "Iterator::next", "Iterator>::next"):
+                        out_.append(ds_[0][1])
+                    else:
+                        return None
+                return out_
+            return None
+        if not reads(t):
             return None
         fixed = min(r["fixed"] for r in regs)
         # count next().unwrap() along the longest acyclic path, none in loops
@@ -655,9 +675,7 @@ class Discharger:
         nu = []
         for bb, tt in f.calls():
             if callee(tt) in UNWRAPS and not f.blocks[bb]["cleanup"]:
-                s2 = self._unwrap_src(f, tt)
-                if s2 and callee_matches(s2[1], "Iterator::next", "Iterator>::next"):
-                    nu.append(bb)
+                nu.extend(reads(tt) or [])
         if any(x in loops for x in nu):
             return (False, "D-arity", "argument read with next().unwrap() inside a loop")
         longest = longest_count(f, set(nu))
@@ -874,25 +892,26 @@ class Discharger:
             return allow(1, "the item sequence starts with a Proper item (from_iter maps every item to Proper; substitude_ellipsis_item "
                          "replays the kinds produced by into_pair_iter, whose first item is Proper), so the result is a pair; callers: %s" % callers, okc)
         # --- parser invariants
-        if name == ITP + "apply_scheme_procedure" and what in ("unreachable", "panic"):
-            makers = sorted({g.name.split("::{closure")[0] for g in fb.all("lib") if not g.derived
-                             for _, _, s, a, v in mir.aggregates(g, None, "SchemeProcedure")})
-            tpb = fb.find("parser::parser::Parser::transform_procedure_body")
-            guard = any(v == "LambdaBodyNoExpression" for _, _, _, _, v in mir.aggregates(tpb))
-            # every maker takes the body it stores from transform_procedure_body (directly, or through `?`)
-            okm = bool(makers)
-            for g in fb.all("lib"):
-                if g.derived:
-                    continue
-                pg = None
-                for _, _, s_, a_, v_ in mir.aggregates(g, None, "SchemeProcedure"):
-                    pg = pg or Prov(g)
-                    ops_ = s_["rv"]["ops"]
-                    roots_ = {c_ for _, c_ in pg.call_roots(ops_[-1])} if ops_ else set()
-                    if not any((c_ or "").endswith("Parser::transform_procedure_body") for c_ in roots_):
-                        okm = False
+        if name.split("::{closure")[0] == ITP + "apply_scheme_procedure" and what in ("unreachable", "panic"):
+            # the arm for a procedure without body expressions: the crate's own lexer and parser are run on procedures whose body
+            # is empty or holds definitions only — every one has to be refused (then no SchemeProcedure with an empty body exists)
+            from . import readtables
             self.ctx.assume("hand-built ASTs that violate parser invariants (empty procedure body) are outside the property")
-            return allow(1, "parser invariant: SchemeProcedure is built only by %s after transform_procedure_body rejected an empty body" % makers, okm and guard)
+            if not hasattr(self, "_empty_bodies"):
+                texts = ["(lambda ())", "(lambda (p1))", "(define (f1))", "(lambda () (define d1 1))", "(define (f1 p1) (define d1 1) (define d2 2))",
+                         "(lambda p1)", "((lambda ()))"]
+                res = [(tx, readtables.parse_statement(self.fb, tx + " ")) for tx in texts]
+                ctl = readtables.parse_statement(self.fb, "(lambda () 1) ")
+                if any(r[0] == "stuck" for _, r in res) or ctl[0] != "ok":
+                    self._empty_bodies = (None, "the parser could not be followed on procedures with an empty body")
+                else:
+                    accepted = [tx for tx, r in res if r[0] != "error"]
+                    self._empty_bodies = (not accepted, "the parser accepts %s: a procedure without a body expression reaches the evaluator" % accepted
+                                          if accepted else "the parser refuses every procedure whose body is empty or holds definitions only (%d texts)" % len(texts))
+            okb, whyb = self._empty_bodies
+            if okb is None:
+                return (None, "D-table", whyb)
+            return (bool(okb), "D-table", "parser invariant: " + whyb)
         if name.endswith("ParameterFormalsBody>>::as_name") and what == "unreachable":
             tf = fb.find("parser::parser::Parser::transform_formals")
             validated = any(callee_matches(tt, "ParameterFormalsBody>>::split") for _, tt in tf.calls())
@@ -996,6 +1015,11 @@ class Discharger:
             if why:
                 return (True, "D-len-guard", why)
             return None
+        if kind == "assert" and what.startswith("BoundsCheck"):
+            why = bounds.bounds_check_holds(f, b, t)
+            if why:
+                return (True, "D-len-guard", why)
+            return None
         if kind == "assert" and what in ("Overflow:Sub", "Overflow:Add"):
             cl = mir.op_place(t["cond"]) if t.get("cond") else None
             if cl is None:
@@ -1014,6 +1038,52 @@ class Discharger:
                                                     "(a container holds at most isize::MAX items)")
                     return None
         return None
+
+    def d_map_key_present(self, f, b, t, kind, what):
+        """`map[key]` (panics on an absent key) where every way to the site either found the key with `contains_key` or has just
+        inserted it into the same map"""
+        if kind != "std-panicky" or what not in ("index", "index_mut") or len(t.get("args") or []) < 2:
+            return None
+        if "HashMap<" not in " ".join(str(x) for x in (t.get("argtys") or [])[:1]) and "BTreeMap<" not in " ".join(str(x) for x in (t.get("argtys") or [])[:1]):
+            return None
+        from . import bounds
+        M = bounds._place_text(f, t["args"][0])
+        p = Prov(f)
+
+        def key_roots(o):
+            return {r for r in p.op_roots(o) if r[0] in ("arg", "call")}
+        K = key_roots(t["args"][1])
+        if not M or not K:
+            return None
+        cut_edges, cut_blocks = set(), set()
+        for bb, tt in f.calls():
+            if bb == b or f.blocks[bb]["cleanup"] or len(tt.get("args") or []) < 2:
+                continue
+            if bounds._place_text(f, tt["args"][0]) != M or not (key_roots(tt["args"][1]) & K):
+                continue
+            if callee_matches(tt, "HashMap::contains_key", "BTreeMap::contains_key"):
+                nb = f.blocks[tt["target"]]["term"] if tt.get("target") is not None else None
+                if nb and nb["k"] == "switch" and mir.op_local(nb["discr"]) == tt["dest"]["local"]:
+                    cut_edges.add((tt["target"], nb["otherwise"]))                 # the `true` edge
+            elif callee_matches(tt, "HashMap::insert", "BTreeMap::insert") and tt.get("target") is not None:
+                cut_blocks.add(bb)
+        if not cut_edges and not cut_blocks:
+            return None
+        # is the site reachable without taking a `key is there` edge and without passing an insert of the key?
+        seen, todo = set(), [0]
+        while todo:
+            x = todo.pop()
+            if x in seen:
+                continue
+            seen.add(x)
+            if x == b:
+                return None
+            if x in cut_blocks:
+                continue
+            for y in f.succs(x):
+                if (x, y) not in cut_edges:
+                    todo.append(y)
+        return (True, "D-checked-key", "every way to the lookup found the key with contains_key or has just inserted it into the same map")
 
     def d_cell_momentary(self, f, b, t, kind, what):
         """`cell.replace(v)` / `swap` borrow the cell for the duration of the call only: they panic when a guard of the same cell is
@@ -1128,15 +1198,12 @@ class Discharger:
             for f in self.fb.all(crate):
                 for l in f.locals:
                     ty = l["ty"]
-                    i = ty.find("interpreter::Interpreter<")
-                    if i >= 0:
-                        inner = ty[i:].split("<", 1)[1]
-                        parts = inner.split(",")
-                        cand = parts[-1].strip(" >") if parts else ""
+                    import re as _re
+                    for cand in _re.findall(r"interpreter::Interpreter<(?:'[A-Za-z_0-9]+, ?)?([A-Za-z_][A-Za-z0-9_:]*)>", ty):
                         if cand in ("f32", "f64"):
                             out.add(cand)
-                        elif cand and cand not in ("R",) and not cand.startswith("'"):
-                            out.add(cand)
+                        elif cand and not (len(cand) <= 2 and cand[:1].isupper()) and not cand.startswith("'"):
+                            out.add(cand)               # (one- or two-letter upper-case names are type parameters)
         return out
 
     # -------------------------------------------------------------- D-known-arith: exact i32 arithmetic (C09 class)
